@@ -20,8 +20,10 @@ def consts(maxn, sizes, fails, kinds, dup=1):
 def main(ctx, only=None, known=True):
     if only is None:
         # the exception a task raises -- also from a very deep stack -- comes back as that task's result
-        from checks import workercommon
+        from checks import itercommon, workercommon
         workercommon.run(ctx, 'C02')
+        # the consumer of an imap iterator against the pool's deliveries (condition-variable granularity)
+        itercommon.run(ctx, 'C02')
     """only: restrict the formulas (used by C01, whose statement covers the parts of map / imap jobs)"""
     global INV, PROPS
     inv0, props0 = INV, PROPS
